@@ -293,9 +293,24 @@ def concrete_playback(h, target_dir, timeout=900, base_time=None):
     The playback run repeats the verification with trace generation: its time limit scales with the time the harness took."""
     if base_time:
         timeout = max(timeout, int(6 * base_time) + 300)
+    # kani-driver holds CBMC's whole JSON trace in memory (measured: up to 26 GB for harnesses that execute a verifier run); two of
+    # those at once invoke the kernel's OOM killer. Playbacks of such harnesses are serialised machine-wide with a lock file.
+    lk = None
+    if h.fs:
+        lk = open(os.path.join(C.VERIF, ".build", "playback.lock"), "w")
+        fcntl.flock(lk, fcntl.LOCK_EX)
+    try:
+        return _concrete_playback(h, target_dir, timeout)
+    finally:
+        if lk:
+            fcntl.flock(lk, fcntl.LOCK_UN)
+            lk.close()
+
+
+def _concrete_playback(h, target_dir, timeout):
     out, rc, to, dt = run_proc(
         kani_cmd(h, target_dir, ["-Z", "concrete-playback", "--concrete-playback=print"]),
-        C.KANI_CRATE, timeout, h.mem_gb)
+        C.KANI_CRATE, timeout, max(h.mem_gb, 40))   # the driver parses CBMC's full trace: needs far more address space than the verification run
     tests = []
     for m in PLAYBACK_RE.finditer(out):
         body = m.group(1)
@@ -303,7 +318,38 @@ def concrete_playback(h, target_dir, timeout=900, base_time=None):
             tests.append(body.replace("\r", ""))
     if to:
         out += f"\n[concrete playback timed out after {timeout} s]"
+    if not tests and "No exit code?" in out:
+        out += "\n[kani-driver was killed while reading the trace (memory allocation of / kernel OOM killer)]"
     return tests, out
+
+
+def boundary_candidates(h, limit=4096):
+    """Fallback when no playback could be produced for a harness whose symbolic inputs are few and small (kv any_sizes="1,4,..":
+    the byte sizes of its kani::any() draws, in order): candidate inputs built from boundary values, to be run NATIVELY until one
+    panics at the reported location. The solver has already decided that a violating input exists; this only finds a replayable one."""
+    spec = h.kv.get("any_sizes")
+    if not spec:
+        return None
+    sizes = [int(x) for x in spec.split(",")]
+    import itertools
+    per = []
+    for n in sizes:
+        if n == 1:
+            vals = [[v] for v in range(256)]
+        else:
+            vals = [[0] * n, [255] * n, [1] + [0] * (n - 1), [0] * (n - 1) + [128], [0] * (n - 1) + [1], [3] + [1] * (n - 1)]
+            vals += [[v] + [0] * (n - 1) for v in (2, 7, 16, 100, 200)] + [[255] * (n - 1) + [127]]
+        per.append(vals)
+    combos = []
+    for c in itertools.product(*per):
+        combos.append(list(c))
+        if len(combos) >= limit:
+            break
+    body = ", ".join("vec![" + ", ".join("vec![" + ", ".join(map(str, d)) + "]" for d in c) + "]" for c in combos)
+    return (f"#[test]\nfn kani_concrete_playback_boundary_scan() {{\n    let cands: Vec<Vec<Vec<u8>>> = vec![{body}];\n"
+            f"    let mut hits = 0;\n    for c in cands {{\n        let shown = format!(\"{{:?}}\", c);\n"
+            f"        if std::panic::catch_unwind(|| kani::concrete_playback_run(c, {h.name})).is_err() {{ eprintln!(\"BOUNDARY-CANDIDATE-PANICKED kani::any() draws {{}}\", shown); hits += 1; if hits >= 24 {{ break; }} }}\n    }}\n"
+            f"    assert!(hits == 0);\n}}\n")
 
 
 def native_replay(h, test_src, timeout=600, fail_locs=None, strict=False):
